@@ -329,6 +329,12 @@ func c11Gen(t *rapid.T, e *c11Env) (*c11Case, time.Time) {
 	cutoff := time.Unix(0, cus*1000+frac).UTC()
 	c.Cutoff = cutoff.Format(time.RFC3339Nano)
 	c.Retention = rapid.IntRange(1, 40).Draw(t, "retention")
+	if rapid.IntRange(0, 7).Draw(t, "hugeRetention") == 0 {
+		// "keep (almost) forever" policies: the day count times 24h does not fit a
+		// time.Duration (int64 ns overflows above 106751 days), calendar arithmetic does
+		c.Retention = rapid.SampledFrom([]int{36500, 106751, 106752, 200000, 365000}).Draw(t, "retentionHuge")
+		verifkit.Class("huge-retention")
+	}
 	c.Buffer = rapid.IntRange(0, c.Retention-1).Draw(t, "buffer")
 
 	rid := int64(0)
@@ -381,7 +387,7 @@ type c11Report struct {
 }
 
 func (e *c11Env) run(t *rapid.T, c *c11Case, mode string, policyID int64, policy *RetentionPolicy, cutoff time.Time, dry bool) c11Report {
-	now := cutoff.Add(time.Duration(c.Retention+c.Buffer) * 24 * time.Hour)
+	now := cutoff.AddDate(0, 0, c.Retention+c.Buffer)
 	switch mode {
 	case "direct":
 		ms, err := e.h.getMeasurementsToProcess(context.Background(), policy)
@@ -529,7 +535,7 @@ func c11Property(t *rapid.T, e *c11Env) {
 
 		// an unconfirmed real run over HTTP must be refused
 		if c.Mode == "http" && rapid.IntRange(0, 3).Draw(t, "unconfirmed") == 0 {
-			VerifSetClock(cutoff.Add(time.Duration(c.Retention+c.Buffer) * 24 * time.Hour))
+			VerifSetClock(cutoff.AddDate(0, 0, c.Retention+c.Buffer))
 			st, raw, err := e.httpJSON("POST", fmt.Sprintf("/api/v1/retention/%d/execute", policyID), ExecuteRetentionRequest{})
 			VerifSetClock(time.Time{})
 			if err != nil {
